@@ -21,7 +21,9 @@ META = {
     "from {1, space, +, [, ], 'a', comma, {{ x }}, {{ s }}} x 6 contexts must return ast.literal_eval of the concatenated "
     "text when Python reads it as a literal, the text otherwise; the same alphabet plus three constant pieces that render "
     "to the empty string ({{ '' }}, {{ \"\" ~ \"\" }}, {{ ''|string }}) one piece less deep, and every menu value next to "
-    "such a piece (two nodes -> text, never identity).  Constant family: ~600 single-expression templates "
+    "such a piece (two nodes -> text, never identity); the extended alphabet is also rendered with finalize= (plain and "
+    "@pass_context, repr-quoting str values: applies to expression values only, not to template text); every container "
+    "result is mutated and the render repeated (must give a fresh, unchanged literal).  Constant family: ~600 single-expression templates "
     "without variables whose value holds classes reachable from constants (alone, dict values/keys, lists, tuples, "
     "nested one level) must return the value built in Python, type-exactly.  Every case runs in a sync NativeEnvironment (render), an "
     "async-enabled one (render) and an async-enabled one (render_async under asyncio.run).",
@@ -84,13 +86,36 @@ def canon(v):
 
 # ----------------------------------------------------------------------------- rendering
 
-def render(mode, src, ctx):
+def quote_strings(value):
+    """finalize callable: repr-quotes str results (so they survive the literal parse), leaves everything else alone."""
+    return repr(value) if isinstance(value, str) else value
+
+
+def finalizer(name):
+    if name is None:
+        return None
+    if name == "plain":
+        return quote_strings
+    from jinja2 import pass_context
+
+    @pass_context
+    def with_context(context, value):
+        return quote_strings(value) if context.get("quote", True) else value
+
+    return with_context
+
+
+FINALIZERS = [None, "plain", "pass_context"]
+
+
+def render(mode, src, ctx, fin=None):
     from jinja2.nativetypes import NativeEnvironment
 
+    kw = {} if fin is None else {"finalize": finalizer(fin)}
     try:
         if mode == "sync-render":
-            return ("val", NativeEnvironment().from_string(src).render(**ctx))
-        env = NativeEnvironment(enable_async=True)
+            return ("val", NativeEnvironment(**kw).from_string(src).render(**ctx))
+        env = NativeEnvironment(enable_async=True, **kw)
         t = env.from_string(src)
         if mode == "async-render":
             return ("val", t.render(**ctx))
@@ -102,11 +127,17 @@ def render(mode, src, ctx):
 SCRIPT = (
     "import asyncio\n"
     "from checks import c34\n"
-    "mode, src, ctx_expr = %r\n"
+    "args = %r\n"
+    "mode, src, ctx_expr = args[:3]\n"
+    "fin = args[3] if len(args) > 3 else None\n"
     "ctx = eval(ctx_expr, c34._ns())\n"
-    "print('mode    :', mode)\nprint('source  :', repr(src))\nprint('context :', ctx_expr)\n"
-    "out = c34.render(mode, src, ctx)\n"
+    "print('mode    :', mode, ' finalize:', fin)\nprint('source  :', repr(src))\nprint('context :', ctx_expr)\n"
+    "out = c34.render(mode, src, ctx, fin)\n"
     "print('result  :', out, type(out[1]).__name__ if out[0] == 'val' else '')\n"
+    "if len(args) > 4:  # second render after the caller changed the first result\n"
+    "    c34.mutate(out[1])\n"
+    "    out2 = c34.render(mode, src, ctx, fin)\n"
+    "    print('mutated :', out[1])\n    print('2nd     :', out2, 'same object' if out2[1] is out[1] else '')\n"
 )
 
 
@@ -200,6 +231,8 @@ def single_shard(arg):
                             "msg": f"{mode} {shape!r} with x={value!r}: got {got!r} ({type(got).__name__}), expected "
                                    f"{want!r} ({type(want).__name__})",
                             "script": SCRIPT % ((mode, shape, ctx_expr),)})
+                    elif has_mutable(got):
+                        rerender_after_mutation(p, mode, shape, ctx, ctx_expr, None, got, want)
                 elif kind == "missing":
                     import jinja2
 
@@ -266,21 +299,67 @@ CONTEXT_EXPRS = [
 ]
 
 
-def expected_multi(seq, ctx):
+def expected_multi(seq, ctx, fin=None):
+    """Environment docstring, `finalize`: "A callable that can be used to process the result of a variable expression before it
+    is output" - it applies to the values of expression pieces, never to template data."""
+    f = quote_strings if fin else (lambda v: v)
     if not seq:
         return None  # CALIBRATED: a template without output nodes gives None (native_concat: "if not head: return None")
-    if len(seq) == 1 and seq[0] in ("{{ x }}", "{{ s }}"):
-        v = ctx["x" if seq[0] == "{{ x }}" else "s"]
+
+    def value_of(pc):
+        return f(ctx["x"] if pc == "{{ x }}" else ctx["s"] if pc == "{{ s }}" else "")
+
+    if len(seq) == 1 and (seq[0] in _DYNAMIC or seq[0] in EMPTY_PIECES):
+        v = value_of(seq[0])
         return v if not isinstance(v, str) else literal_or_text(v)
-    text = "".join(str(ctx["x"]) if pc == "{{ x }}" else str(ctx["s"]) if pc == "{{ s }}" else
-                   "" if pc in EMPTY_PIECES else pc for pc in seq)
+    text = "".join(str(value_of(pc)) if (pc in _DYNAMIC or pc in EMPTY_PIECES) else pc for pc in seq)
     return literal_or_text(text)
+
+
+def mutate(v):
+    """what a caller may do with a result it owns: grow every mutable container in it."""
+    if type(v) is list:
+        for i in v:
+            mutate(i)
+        v.append("MUTATED")
+    elif type(v) is dict:
+        for i in v.values():
+            mutate(i)
+        v["MUTATED"] = 1
+    elif type(v) is set:
+        v.add("MUTATED")
+    elif type(v) is tuple:
+        for i in v:
+            mutate(i)
+
+
+def has_mutable(v):
+    if type(v) in (list, dict, set):
+        return True
+    return type(v) is tuple and any(has_mutable(i) for i in v)
+
+
+def rerender_after_mutation(p, mode, src, ctx, ctx_expr, fin, first, want):
+    """the first result belongs to the caller: after the caller changed it, an equal render must still give the
+    literal value of its text, in a new object."""
+    mutate(first)
+    p.evals += 1
+    out = render(mode, src, ctx, fin)
+    if out[0] == "exc" or out[1] is first or canon(out[1]) != canon(want):
+        p.violation("C34/second-render/" + type(want).__name__, {
+            "msg": f"{mode} {src!r} with {ctx_expr} finalize={fin}: after the caller changed the first result, the second "
+                   f"render gave {out[1:]!r}{' (the same object)' if out[0] == 'val' and out[1] is first else ''}, expected "
+                   f"{want!r}", "script": SCRIPT % ((mode, src, ctx_expr, fin, "twice"),)})
+    p.count("second_renders_after_mutation")
 
 
 def multi_shard(arg):
     """all piece sequences that start with `prefix` (only the prefix itself when exact_only)."""
     prefix, maxlen, exact_only, alphabet = arg
     pieces = PIECES if alphabet == "base" else ALL_PIECES
+    # the environments with a finalize callable run over the extended alphabet (every sequence of it, not only those
+    # with an empty-string piece); the base pass is without finalize
+    fins = [None] if alphabet == "base" else FINALIZERS
     ns = _ns()
     contexts = [(e, eval(e, ns)) for e in CONTEXT_EXPRS]  # noqa: S307 - fixed menu above
     p = core.Part()
@@ -290,32 +369,39 @@ def multi_shard(arg):
         seqs = [tuple(prefix) + rest for n in range(0, maxlen - len(prefix) + 1)
                 for rest in itertools.product(pieces, repeat=n)]
     for seq in seqs:
-        if alphabet == "ext" and not any(pc in EMPTY_PIECES for pc in seq):
-            continue  # covered by the base alphabet at a larger bound
         src = "".join(seq)
         dynamic = any(pc in _DYNAMIC for pc in seq)
-        for ctx_expr, ctx in (contexts if dynamic else contexts[:1]):
-            want = expected_multi(seq, ctx)
-            for mode in MODES:
-                p.evals += 1
-                out = render(mode, src, ctx)
-                if out[0] == "exc":
-                    p.sig((mode, "exc", out[1]))
-                    p.violation(f"C34/{mode}-{out[1].lower()}", {
-                        "msg": f"{mode} {src!r} with {ctx_expr}: raised {out[1]}: {out[2]}",
-                        "script": SCRIPT % ((mode, src, ctx_expr),)})
-                    continue
-                got = out[1]
-                is_text = isinstance(want, str)
-                p.sig((mode, "multi", type(want).__name__, type(got).__name__, len(seq) == 1))
-                if not is_text:
-                    p.count("multi_cases_expected_literal")
-                single_identity = len(seq) == 1 and dynamic and not isinstance(ctx["x"], str) and seq[0] == "{{ x }}"
-                ok = (got is ctx["x"]) if single_identity else canon(got) == canon(want)
-                if not ok:
-                    p.violation("C34/multi/" + ("text" if is_text else "literal"), {
-                        "msg": f"{mode} {src!r} with {ctx_expr}: got {got!r} ({type(got).__name__}), expected {want!r} "
-                               f"({type(want).__name__})", "script": SCRIPT % ((mode, src, ctx_expr),)})
+        has_expr = dynamic or any(pc in EMPTY_PIECES for pc in seq)
+        for fin in fins:
+            if fin is None and alphabet == "ext" and not any(pc in EMPTY_PIECES for pc in seq):
+                continue  # covered by the base alphabet at a larger bound
+            for ctx_expr, ctx in (contexts if dynamic else contexts[:1]):
+                want = expected_multi(seq, ctx, fin)
+                for mode in MODES:
+                    p.evals += 1
+                    out = render(mode, src, ctx, fin)
+                    if out[0] == "exc":
+                        p.sig((mode, "exc", out[1]))
+                        p.violation(f"C34/{mode}-{out[1].lower()}", {
+                            "msg": f"{mode} {src!r} with {ctx_expr} finalize={fin}: raised {out[1]}: {out[2]}",
+                            "script": SCRIPT % ((mode, src, ctx_expr, fin),)})
+                        continue
+                    got = out[1]
+                    is_text = isinstance(want, str)
+                    p.sig((mode, "multi", fin, type(want).__name__, type(got).__name__, len(seq) == 1))
+                    if not is_text:
+                        p.count("multi_cases_expected_literal")
+                    single_identity = len(seq) == 1 and dynamic and not isinstance(ctx["x"], str) and seq[0] == "{{ x }}"
+                    ok = (got is ctx["x"]) if single_identity else canon(got) == canon(want)
+                    if not ok:
+                        fam = "multi" if fin is None else "finalize"
+                        p.violation(f"C34/{fam}/" + ("text" if is_text else "literal"), {
+                            "msg": f"{mode} {src!r} with {ctx_expr} finalize={fin}: got {got!r} ({type(got).__name__}), "
+                                   f"expected {want!r} ({type(want).__name__})" +
+                                   ("" if has_expr or fin is None else " - template data only: finalize must not apply"),
+                            "script": SCRIPT % ((mode, src, ctx_expr, fin),)})
+                    elif not single_identity and has_mutable(got):
+                        rerender_after_mutation(p, mode, src, ctx, ctx_expr, fin, got, want)
         if len(seq) == maxlen:
             p.sample({"kind": "multi node", "pieces": list(seq), "source": src,
                       "expected_with_first_context": repr(expected_multi(seq, contexts[0][1]))}, cap=1)
@@ -412,6 +498,12 @@ def run(ctx: core.Ctx):
         "whitespace, newlines and comments are handled as Python does",
         "CALIBRATED: a template without any output node returns None",
         "a single node that is a str subclass (Markup) counts as a string",
+        "finalize (Environment docstring: 'process the result of a variable expression before it is output') applies to the values "
+        "of expression pieces, constants included, never to template data; checked with a plain and a @pass_context "
+        "finalize that repr-quote str values, over every sequence of the extended alphabet",
+        "a result is the caller's: whenever a render returns a value holding a list/dict/set (not the context object "
+        "itself), the check grows every container in it and renders the same source again in a fresh environment; the "
+        "second result must be a new object equal to the literal value of the text",
         "a constant expression that renders to '' ({{ '' }}, {{ \"\" ~ \"\" }}, {{ ''|string }}) is an output node like any "
         "other: alone it returns '', next to {{ x }} it makes the template a two-node template (literal of str(x) or the text)",
         "constant family: single-expression templates without context variables whose value holds classes reached from "
@@ -439,7 +531,7 @@ def run(ctx: core.Ctx):
     if ctx.counters.get("multi_cases_expected_literal", 0) < 100:
         raise core.HarnessError("piece alphabet did not bite: almost no literal-valued concatenations")
     ctx.cov["bounds"] = {"pieces": PIECES, "max_pieces": maxlen, "empty_string_pieces": EMPTY_PIECES,
-                         "max_pieces_with_empty_string_pieces": extlen, "two_node_shapes": TWO_NODE_SHAPES, "contexts": CONTEXT_EXPRS, "modes": MODES,
+                         "max_pieces_with_empty_string_pieces": extlen, "two_node_shapes": TWO_NODE_SHAPES, "finalize_configurations": [str(f) for f in FINALIZERS], "contexts": CONTEXT_EXPRS, "modes": MODES,
                          "single_shapes": SINGLE_SHAPES, "constant_expressions": n_const,
                          "constant_wrappers": CONST_WRAPPERS, "string_values": len(STRING_VALUES),
                          "other_values": len(VALUE_EXPRS)}
